@@ -60,6 +60,47 @@ def FBoom(x: int, log: str, tag: str = "P") -> int:
     raise BodyError(f"boom {x}")
 
 
+# ----------------------------------------------------------------------------- file inputs
+# A set of files that has to be staged into the job directory before the body can run.  Whether the
+# staging can succeed is decided by the VALUE (see vlib/gen/faults.py: stage_files): two files
+# with one name cannot become siblings; a file on another device cannot be hard-linked.
+def _fstage(files, x: int, log: str, tag: str = "P") -> int:
+    import os as _os
+
+    fd = _os.open(log, _os.O_WRONLY | _os.O_APPEND | _os.O_CREAT, 0o644)
+    try:
+        _os.write(fd, (tag + "\n").encode())
+    finally:
+        _os.close(fd)
+    return x + len(files.fspaths)
+
+
+def _fstage_siblings(files, x: int, log: str, tag: str = "P") -> int:
+    return _fstage(files, x, log, tag)
+
+
+def _fstage_hardlink(files, x: int, log: str, tag: str = "P") -> int:
+    return _fstage(files, x, log, tag)
+
+
+def _define_fstage():
+    from fileformats.generic import File, SetOf
+
+    a = python.define(
+        _fstage_siblings,
+        inputs={"files": python.arg(type=SetOf[File], copy_mode=File.CopyMode.copy,
+                                    copy_collation=File.CopyCollation.siblings)},
+        outputs={"out": python.out(type=int)}, name="FStageSiblings")
+    b = python.define(
+        _fstage_hardlink,
+        inputs={"files": python.arg(type=SetOf[File], copy_mode=File.CopyMode.hardlink)},
+        outputs={"out": python.out(type=int)}, name="FStageHardlink")
+    return a, b
+
+
+FStageSiblings, FStageHardlink = _define_fstage()
+
+
 # ----------------------------------------------------------------------------- shell body
 # sh <script> <log> <tag> <x>; the script (written by the check, see SH_OK / SH_FAIL) appends the tag
 # to the log and prints "out-<x+1>" (or exits 3).  No argument contains blanks.
